@@ -158,7 +158,9 @@ RenderEv ==
      IN /\ (E.rawstatus = "nil" /\ Flat(pred[1]) # E.raw) => Report("DRIFT", "raw")
         /\ (E.rawstatus # "skip" /\ pred[2] # obsT) => Report("DRIFT", "table")
         \* (corpus files: identifiers are not unique per path, the symbol-based reference projection does not apply)
-        /\ (~E.c01.on) => (MonRefs(E.specs, refs, bare, TRUE) /\ MonFile(E.specs, refs, bare, E.parses))
+        \* (written as an equation so that TLC evaluates the monitors as ONE expression: as conjuncts of the action it would
+        \*  descend one Java stack level per element of every quantifier - hundreds of thousands for a File of 500 imports)
+        /\ ((~E.c01.on) => (MonRefs(E.specs, refs, bare, TRUE) /\ MonFile(E.specs, refs, bare, E.parses))) = TRUE
         \* C01: the re-parsed output equals the source program (package, imports under the same names, every declaration)
         /\ (E.c01.on /\ E.c01.var.prop = "" /\ E.status # "nil") => Report("C01", IF E.c01.known # "" THEN E.c01.known \o ":" \o E.c01.file ELSE "render fails: " \o E.c01.file)
         /\ (E.c01.on /\ E.c01.var.prop = "" /\ E.status = "nil" /\ ~(E.c01.parses /\ E.c01.pkgeq /\ E.c01.impeq /\ E.c01.asteq))
@@ -203,7 +205,7 @@ FragEv ==
          bare == SeqSet(E.bare)
          obsT == TableFn(E.table)
      IN /\ (~E.skip /\ pred[2] # obsT) => Report("DRIFT", "table")
-        /\ MonRefs(<<>>, refs, bare, FALSE)
+        /\ MonRefs(<<>>, refs, bare, FALSE) = TRUE
         /\ (E.status = "panic") => Report("C02", "panic in fragment render")
         /\ (E.status = "nil" /\ ~E.parses) => Report("C02", "fragment: nil but the output does not parse")
         /\ imps' = obsT
